@@ -63,6 +63,7 @@ func (s *streamWriter) Invoke(msgs []actor.Envelope) {
 		targetLookup = make(map[uint64]int32)
 		targets      = make([]*actor.PID, 0)
 		messages     = make([]*Message, 0, len(msgs))
+		hasSender    = false
 	)
 
 	for i := 0; i < len(msgs); i++ {
@@ -79,7 +80,15 @@ func (s *streamWriter) Invoke(msgs []actor.Envelope) {
 			continue
 		}
 		typeID, typeNames = lookupTypeName(typeLookup, s.serializer.TypeName(stream.msg), typeNames)
-		senderID, senders = lookupPIDs(senderLookup, stream.sender, senders)
+		sender := stream.sender
+		if sender == nil {
+			// "no sender" travels as an empty PID of its own: index 0 would otherwise
+			// name the first real sender of the batch.
+			sender = noSender
+		} else {
+			hasSender = true
+		}
+		senderID, senders = lookupPIDs(senderLookup, sender, senders)
 		targetID, targets = lookupPIDs(targetLookup, stream.target, targets)
 
 		b, err := s.serializer.Serialize(stream.msg)
@@ -94,6 +103,11 @@ func (s *streamWriter) Invoke(msgs []actor.Envelope) {
 			SenderIndex:   senderID,
 			TargetIndex:   targetID,
 		})
+	}
+
+	if !hasSender {
+		// nobody in this batch has a sender: keep the table empty.
+		senders = senders[:0]
 	}
 
 	env := &Envelope{
@@ -212,6 +226,9 @@ func (s *streamWriter) Start() {
 	s.inbox.Start(s)
 	s.init()
 }
+
+// noSender stands in the sender table for messages that were sent without a sender.
+var noSender = &actor.PID{}
 
 func lookupPIDs(m map[uint64]int32, pid *actor.PID, pids []*actor.PID) (int32, []*actor.PID) {
 	if pid == nil {
